@@ -49,10 +49,26 @@ func parseDate(buf []byte) (t time.Time, err error) {
 	str := string(buf)
 	if t, err = time.Parse("2006-01-02T15:04:05Z07:00", str); err != nil {
 		if t, err = time.Parse("2006-01-02T15:04:05.00", str); err != nil {
-			return time.Parse("2006-01-02T15:04:05", str)
+			if t, err = time.Parse("2006-01-02T15:04:05", str); err != nil {
+				return parseReducedDate(str)
+			}
 		}
 	}
 	return
+}
+
+// reducedDateLayouts are the reduced-precision forms of the XMP Date type:
+// minutes with and without a time zone, a date, a month, a year.
+var reducedDateLayouts = [...]string{"2006-01-02T15:04Z07:00", "2006-01-02T15:04", "2006-01-02", "2006-01", "2006"}
+
+// parseReducedDate parses a date that carries no seconds
+func parseReducedDate(str string) (t time.Time, err error) {
+	for i := 0; i < len(reducedDateLayouts); i++ {
+		if t, err = time.Parse(reducedDateLayouts[i], str); err == nil {
+			return t, nil
+		}
+	}
+	return t, err
 }
 
 // parseUUID parses a UUID and returns a meta.UUID
